@@ -28,14 +28,14 @@ def configs(tier, seed):
                             {'concat', 'add', 'either', 'optional', 'exactly', 'capture', 'group', 'compile', 'match'}, 4, 4),
                 heap_config('grouping-history-len4', {'ab', 'alt', 'altdup'}, {'group_ci', 'group', 'optional', 'mul', 'add', 'match'}, 4, 4),
                 heap_config('alias-cache-len5', {'a', 'empty', 'dollar'}, {'concat', 'exactly', 'at_most', 'mul', 'compile', 'get_compiled', 'match'}, 4, 5),
-                heap_config('classes-len4', {'from', 'between', 'a'}, {'or', 'sub', 'invert', 'concat', 'optional', 'compile'}, 5, 4),
+                heap_config('classes-len4', {'from', 'between', 'aei', 'ce'}, {'or', 'sub', 'invert', 'concat', 'optional', 'compile'}, 5, 4),
                 heap_config('captures-refusals-len4', {'a', 'anchor', 'ab'}, {'capture_n', 'capture_m', 'add', 'one_or_more', 'exactly', 'refused', 'match'}, 5, 4),
                 heap_config('assertions-len4', {'a', 'anchor', 'empty'}, {'followed_by', 'not_preceded_by', 'match_at_line_start', 'enclose', 'one_or_more', 'match'}, 4, 4)]
     return [heap_config('grouping-history-len5', {'ab', 'alt', 'altdup', 'a'}, {'group_ci', 'group', 'optional', 'mul', 'add', 'exactly', 'match', 'compile'}, 5, 5),
             heap_config('pre-ops-len5', {'a', 'ab', 'empty', 'alt', 'dollar'},
                         {'concat', 'add', 'either', 'optional', 'exactly', 'capture', 'group', 'compile', 'match'}, 5, 5),
             heap_config('alias-cache-len6', {'a', 'empty', 'dollar'}, {'concat', 'exactly', 'at_most', 'mul', 'compile', 'get_compiled', 'match'}, 4, 6),
-            heap_config('classes-len5', {'from', 'between', 'a'}, {'or', 'sub', 'invert', 'concat', 'optional', 'compile', 'match'}, 6, 5),
+            heap_config('classes-len5', {'from', 'between', 'a', 'aei', 'ce'}, {'or', 'sub', 'invert', 'concat', 'optional', 'compile', 'match'}, 6, 5),
             heap_config('captures-refusals-len5', {'a', 'anchor', 'ab', 'alt'}, {'capture_n', 'capture_m', 'add', 'one_or_more', 'exactly', 'mul', 'refused', 'match', 'group'}, 6, 5),
             heap_config('assertions-len5', {'a', 'anchor', 'empty', 'alt'}, {'followed_by', 'not_preceded_by', 'match_at_line_start', 'enclose', 'one_or_more', 'match', 'group'}, 5, 5)]
 
@@ -47,7 +47,7 @@ def simulate_histories(tier, seed, seeds, res):
     from .tlaval import P
     from .tlc import run_tlc, runcfg_module
     n, depth = (40, 9) if tier == 'quick' else (600, 12)
-    defs = {'HLeaves': {'a', 'ab', 'empty', 'alt', 'from', 'dollar', 'altdup'}, 'HOps': set(ALL_OPS) | {'group_ci'}, 'MaxHeap': 8, 'MaxLen': depth}
+    defs = {'HLeaves': {'a', 'ab', 'empty', 'alt', 'from', 'dollar', 'altdup', 'aei', 'ce', 'grp_ci', 'bos'}, 'HOps': set(ALL_OPS) | {'group_ci'}, 'MaxHeap': 8, 'MaxLen': depth}
     cfg = 'SPECIFICATION Spec\nINVARIANT SimPrint\nINVARIANT AliasSameValue\nPROPERTY HeapImmutable\nCHECK_DEADLOCK FALSE\n'
     r = run_tlc('PregexHeap', cfg, runcfg_module(defs, extends=['Integers']), workers=1,
                 simulate='num=%d' % n, extra_args=['-depth', str(depth), '-seed', str(seed + 1)], timeout=1800)
